@@ -95,6 +95,12 @@ CHECKS = {
    text="For every case (operator incl. unary - and !, intN/uintN for 13 widths from 8 to 130 and every width <= 4, operand patterns on the 32/64/minimal storage sizes, consumer: returned, +1, /3, <2, <<1, reused with the operand) the harness compiles the expression on typed package constants (CompileSSA confirms nothing is left to compute) and on run-time parameters, evaluates both circuits, and FoldTrace.tla decides equality and - where BV.tla defines it - the typed reference value; narrow types are compared with the expected value Fold.tla derives from the interpreter semantics. Quick: seeded sample of 7000 of the 234450 cases plus 150 narrow (operator, type, consumer) tables; thorough: the whole space.",
    note="Trusts TLC, Circuit.Compute as evaluator, the limb arithmetic (ASSUME SelfTest). The unchanged compiler folds differently from its circuits on 36789 inputs of the fixed case space (storage-size instead of declared-type semantics); they are listed one by one in known/C12.inputs.json and any other discrepancy is a violation.",
    ref="5 C12"),
+ "C13": dict(
+   technique="TLA+ spec IOEnc.tla (arguments as member sequences, values as bit sequences; layout Wires; invariants RoundTrip, NonInterference, NumbersAgree, SizesSuffice model-checked over all small arguments); its cases (IOEncGen.tla) drive IOArg.Parse, IOArg.Set, InputSizes/InstantiateWithSizes and mpc.Result; observations for members of 1..130 bits are decided by trace validation (IOEncTrace.tla)",
+   level="model_checking",
+   text="TLC checks on every argument of up to 2 (thorough: 3) members over small types that decoding inverts the layout, that replacing one member's value leaves all other members' wires unchanged, that the textual (two's complement of the spelled number) and the typed reading agree and that the inferred size holds what is written. TLC-generated arguments (1..4 members: bool, intN/uintN of 1..32 bits, arrays and slices incl. empty and short literals) are pushed through Parse under five spellings, Set under two Go-type variants with a fresh and a reused result, InputSizes+InstantiateWithSizes+Parse of the unsized variants and Result (twice, argument compared before/after); the wires must equal the specification's. Random arguments with member widths 1..130 are recorded as observations and each is decided by IOEncTrace.tla; a deliberately corrupted observation must be rejected on every run.",
+   note="Trusts TLC and the harness' mechanical conversions between bit sequences, spellings and Go values. Array spellings are hexadecimal with nibble-aligned element widths; strings and struct results are not decoded.",
+   ref="5 C13"),
 }
 
 NOT_APPLICABLE = {}
